@@ -146,8 +146,8 @@ def _l_ok(l0, l1, l2):
 
 
 def _d_ok(d):
-    ds = ctx.BOUNDS.get('DELAYS')
-    return (d in ds) if ds is not None else (0 <= d <= B('DMAX'))
+    ds = ctx.B('DELAYS', ())
+    return (d in ds) if ds else (0 <= d <= B('DMAX'))
 
 
 def scenario(b0, b1, b2, l0, l1, l2, d0, d1, d2, lag0, lag1, rate, n):
@@ -166,7 +166,7 @@ def scenario(b0, b1, b2, l0, l1, l2, d0, d1, d2, lag0, lag1, rate, n):
         behs = ([ctx.S('beh')] * 3)[:n]
     else:
         behs = [BEH[ctx.pick(b, range(6))] for b in (b0, b1, b2)][:n]
-    if ctx.BOUNDS.get('D2') is not None and d2 not in ctx.BOUNDS['D2']:
+    if ctx.B('D2', ()) != () and d2 not in ctx.B('D2', ()):
         return None
     delays = []
     for d, k in zip((d0, d1, d2), life):
@@ -174,7 +174,7 @@ def scenario(b0, b1, b2, l0, l1, l2, d0, d1, d2, lag0, lag1, rate, n):
             if d != 0:
                 return None             # the delay of a worker that never answers is irrelevant: one representative
             delays.append(0)
-        elif ctx.BOUNDS.get('DELAYS') is not None:
+        elif ctx.B('DELAYS', ()):
             delays.append(ctx.pick(d, B('DELAYS')))
         else:
             delays.append(d)
@@ -201,7 +201,7 @@ def attribution(b0: int, b1: int, b2: int, l0: int, l1: int, l2: int, d0: int, d
     n = len(ids)
     keep = True if keep else False
     child_first = True if child_first else False
-    if ctx.BOUNDS.get('DELAYS') is not None:
+    if ctx.B('DELAYS', ()):
         with ctx.untraced():            # every solver variable was turned into a constant above: plain Python speed
             out, world, eq, spans, journal = run_world(ids, behs, life, delays, [lag0, lag1], rate, keep, None, child_first)
     else:
@@ -311,10 +311,10 @@ _LIFE2 = [(a, b) for a in LIFE for b in LIFE]
 QB = {'DMAX': 14, 'LAG': 1, 'NS': [3], 'RATES': [1, 3], 'KEEPS': [False], 'L2': [0], 'D2': [0], 'DELAYS': [0, 5, 8, 9, 12, 13]}
 # thorough: (i) delays as symbolic ticks 0..16 (traced, genuinely symbolic), third recording prompt and healthy;
 #           (ii) the enumerated tick set with 2-3 recordings, every third life-cycle kind, all recycle rates, keep-results
-TB = {'DMAX': 16, 'LAG': 1, 'NS': [3], 'RATES': [1, 3], 'KEEPS': [False], 'L2': [0], 'D2': [0], 'DELAYS': None}
+TB = {'DMAX': 16, 'LAG': 1, 'NS': [3], 'RATES': [1, 3], 'KEEPS': [False], 'L2': [0], 'D2': [0]}
 TWIDE = {'b.DELAYS': [0, 5, 8, 9, 12, 13], 'b.NS': [3], 'b.RATES': [1, 2, 3], 'b.KEEPS': [False, True], 'b.L2': [0, 3],
          'b.D2': [0], 'b.LAG': 1}
-TWIDE13 = {'b.DELAYS': [0, 5, 8, 13], 'b.NS': [3], 'b.RATES': [1, 2, 3], 'b.L2': [0, 2, 3], 'b.D2': [0], 'b.LAG': 1}
+TWIDE13 = {'b.DELAYS': [0, 5, 8, 13], 'b.NS': [3], 'b.RATES': [1, 2], 'b.L2': [0, 2, 3], 'b.D2': [0], 'b.LAG': 1}
 CONDITIONS = [
     {'fn': 'attribution', 'nontrivial': 'worker-failure',
      'what': 'dedicated-process run over 2-3 recordings in the model world: labels, attached playbacks and verdicts; '
